@@ -89,7 +89,8 @@ classes = [
            meth('ovl', args=['int']), meth('ovl', args=['QString']),                  # true overload
            meth('lvl'), meth('lvl', args=['int']), meth('lvl', args=['QString']),     # default argument AND overload
            meth('peaked'), meth('peaked', args=['int']), meth('peaked', args=['int', 'int']),   # two default arguments
-           meth('picked', args=['TSub*']), meth('moded', args=['Mode']), meth('fontPicked', args=['QFont'])],
+           meth('picked', args=['TSub*']), meth('moded', args=['Mode']), meth('fontPicked', args=['QFont']),
+           meth('optsPicked', args=['Opts']), meth('optsAndText', args=['Opts', 'QString'])],      # a flags value is passed by value, like an enum
         slots=[meth('act', args=['int']), meth('actText', args=['QString']), meth('actTwo', args=['int', 'int']),
                meth('actFlag', args=['bool']), meth('actPtr', args=['TSource*']), meth('poke'),
                # slots that are not public: the meta-object system could invoke them, a direct C++ call from another class cannot
